@@ -39,7 +39,18 @@ func (m *cntModel) Clone() Model {
 	}
 	return c
 }
-func (m *cntModel) Key() []byte { return nil }
+func (m *cntModel) Key() []byte {
+	ks := make([]string, 0, len(m.doms))
+	for k := range m.doms {
+		ks = append(ks, k)
+	}
+	sort.Strings(ks)
+	s := fmt.Sprint(m.c, m.jumps, m.tldExp)
+	for _, k := range ks {
+		s += fmt.Sprint(k, m.doms[k])
+	}
+	return []byte(s)
+}
 
 type cntOp struct {
 	kind   string // put putNamed putMeta delete setEACL time
@@ -177,7 +188,7 @@ func (d *CntDriver) Step(x *Exec, n *Node, i int) StepResult {
 	h := w.Contracts["container"].Hash
 	nnsH := w.Contracts["nns"].Hash
 	viol := func(class, msg string, where map[string]any) StepResult {
-		return StepResult{V: Viol(class, msg, where), Outcome: "VIOLATION"}
+		return StepResult{V: Viol(class, msg, where), Outcome: "violation"}
 	}
 	if o.kind == "time" {
 		nm.now = m.now + tenYearsMs + 1
